@@ -601,6 +601,9 @@ func GenPair(t *rapid.T, o GenOpts) *Pair {
 	if o.Ties {
 		p.A.addTies(t)
 	}
+	if o.Decorate {
+		p.Ops = append(p.Ops, p.A.decorate(t, p.B)...)
+	}
 	if rapid.IntRange(0, 3).Draw(t, "extraIntf") == 0 && len(p.A.Intfs) < len(hwNames) {
 		p.A.Intfs = append(p.A.Intfs, &Intf{HW: hwNames[len(p.A.Intfs)], Nameif: "mgmt",
 			Shut: rapid.Bool().Draw(t, "extraShut")})
@@ -636,4 +639,112 @@ func (s *State) NetspocText() string {
 	c := s.Clone()
 	c.Intfs = nil
 	return c.Print(Spelling{})
+}
+
+// decorate adds content outside Netspoc's scope to the device (C07).
+func (s *State) decorate(t *rapid.T, b *State) []string {
+	var did []string
+	managedGroups := sortedKeys(s.Groups)
+	var netGroups []string
+	for _, g := range managedGroups {
+		if s.Groups[g].Kind == "network" {
+			netGroups = append(netGroups, g)
+		}
+	}
+	// 1. unbound manual ACL referencing private and shared groups
+	if rapid.IntRange(0, 3).Draw(t, "decACL") != 0 {
+		name := rapid.SampledFrom([]string{"manual_acl", "inside_in_old", "VPN_split"}).Draw(t, "decACLname")
+		if s.ACLs[name] == nil {
+			var refs []string
+			if rapid.Bool().Draw(t, "decPrivGrp") {
+				s.Groups["manual_grp"] = &Group{Kind: "network", Members: genMembers(t, "decPG", 1, 3)}
+				refs = append(refs, "manual_grp")
+			}
+			if len(netGroups) > 0 && rapid.Bool().Draw(t, "decShared") {
+				refs = append(refs, rapid.SampledFrom(netGroups).Draw(t, "decSharedG"))
+				did = append(did, "dec:sharedGroup")
+			}
+			acl := genACL(t, refs, nil, 3, "decACLbody")
+			// make sure at least one reference is really used
+			if len(refs) > 0 {
+				a := &ACE{Permit: true, Proto: "ip", Src: Obj{Group: refs[len(refs)-1]}, Dst: Obj{Pfx: pfx("0.0.0.0/0")}, Log: Log{Level: -1, Interval: -1}}
+				if !hasDup(acl, a) {
+					acl = append([]*ACE{a}, acl...)
+				}
+			}
+			s.ACLs[name] = acl
+			did = append(did, "dec:unboundACL")
+		}
+	}
+	// 2. unreferenced group without tag
+	if rapid.IntRange(0, 2).Draw(t, "decGrp") == 0 {
+		s.Groups["keep_grp"] = &Group{Kind: "network", Members: genMembers(t, "decKG", 1, 3)}
+		did = append(did, "dec:unusedGroup")
+	}
+	// 3. interface unknown to Netspoc with a bound ACL
+	if rapid.IntRange(0, 2).Draw(t, "decIntf") != 0 && len(s.Intfs) < len(hwNames) {
+		nif := "ext9"
+		if !s.hasNameif(nif) || len(s.Intfs) == 0 {
+			s.Intfs = append(s.Intfs, &Intf{HW: hwNames[len(s.Intfs)], Nameif: nif})
+		}
+		name := rapid.SampledFrom([]string{"ext9_in", "ext9_in-DRC-0", "outside_in-DRC-3"}).Draw(t, "decIntfACL")
+		if s.ACLs[name] == nil {
+			var refs []string
+			if len(netGroups) > 0 && rapid.Bool().Draw(t, "decIntfShared") {
+				refs = append(refs, rapid.SampledFrom(netGroups).Draw(t, "decIntfSharedG"))
+				did = append(did, "dec:sharedGroup")
+			}
+			acl := genACL(t, refs, nil, 3, "decIntfBody")
+			if len(refs) > 0 {
+				a := &ACE{Permit: true, Proto: "ip", Src: Obj{Pfx: pfx("0.0.0.0/0")}, Dst: Obj{Group: refs[0]}, Log: Log{Level: -1, Interval: -1}}
+				if !hasDup(acl, a) {
+					acl = append(acl, a)
+				}
+			}
+			s.ACLs[name] = acl
+			s.Bind[Slot{nif, "in"}] = name
+			did = append(did, "dec:unmanagedIntf")
+		}
+	}
+	// 4. routes in a family the target says nothing about
+	if len(b.Routes) == 0 && rapid.Bool().Draw(t, "decRoutes") {
+		genRoutes(t, s, 2, "decRt")
+		did = append(did, "dec:routes")
+	}
+	// 5. opaque lines
+	if rapid.Bool().Draw(t, "decOpaque") {
+		lines := []string{"hostname asa1", "logging enable", "ntp server 10.1.1.8 source inside",
+			"snmp-server host inside 10.1.1.9 community public", "ssh 10.1.1.0 255.255.255.0 inside",
+			"nat (inside,outside) source static any any", "policy-map global_policy", "http server enable"}
+		n := rapid.IntRange(1, 4).Draw(t, "decOpaqueN")
+		for i := 0; i < n; i++ {
+			l := rapid.SampledFrom(lines).Draw(t, fmt.Sprintf("decOpaque%d", i))
+			dup := false
+			for _, x := range s.Opaque {
+				dup = dup || x == l
+			}
+			if !dup {
+				s.Opaque = append(s.Opaque, l)
+				if l == "policy-map global_policy" {
+					s.Opaque = append(s.Opaque, " class inspection_default", "  inspect ftp")
+				}
+			}
+		}
+		did = append(did, "dec:opaque")
+	}
+	// 6. tagged left-over still referenced by an unmanaged ACL (3.022)
+	if rapid.IntRange(0, 3).Draw(t, "decTagged") == 0 {
+		gn := "g9-DRC-0"
+		if s.Groups[gn] == nil {
+			s.Groups[gn] = &Group{Kind: "network", Members: genMembers(t, "decTG", 1, 2)}
+			an := "legacy_acl"
+			if s.ACLs[an] == nil {
+				s.ACLs[an] = []*ACE{{Permit: true, Proto: "ip", Src: Obj{Group: gn}, Dst: Obj{Pfx: pfx("0.0.0.0/0")}, Log: Log{Level: -1, Interval: -1}}}
+				did = append(did, "dec:taggedStillReferenced")
+			} else {
+				delete(s.Groups, gn)
+			}
+		}
+	}
+	return did
 }
